@@ -29,8 +29,10 @@ def fx(h):
 def build(mesh):
     import femio
     from femio import FEMData, FEMAttribute, FEMElementalAttribute, FEMAttributes
-    nid = np.array(mesh['node_ids'], dtype=np.int64)
-    xyz = np.array([[fx(c) for c in row] for row in mesh['coords']], dtype=float)
+    idt = {'int32': np.int32}.get(mesh.get('id_dtype'), np.int64)
+    nid = np.array(mesh['node_ids'], dtype=idt)
+    cdt = {'float32': np.float32, 'int64': np.int64, 'int32': np.int32}.get(mesh.get('coord_dtype'), float)
+    xyz = np.array([[fx(c) for c in row] for row in mesh['coords']], dtype=float).astype(cdt)
     els = {}
     for t, ids, conn in mesh['elems']:
         els[t] = FEMAttribute(t, np.array(ids, dtype=np.int64), np.array(conn, dtype=np.int64))
@@ -49,11 +51,28 @@ def build(mesh):
         fd.nodal_data.update({'INITIAL_TEMPERATURE': FEMAttribute(
             'INITIAL_TEMPERATURE', np.array(tid, dtype=np.int64),
             np.array([[fx(v)] for v in tv], dtype=float))})
+    if mesh.get('materials'):
+        names = np.array([m[0] for m in mesh['materials']])
+        fd.materials = FEMAttributes(
+            names=['Young_modulus', 'Poisson_ratio'], ids=names,
+            list_arrays=[np.array([[fx(m[1])] for m in mesh['materials']]),
+                         np.array([[fx(m[2])] for m in mesh['materials']])])
     if mesh.get('solution_type'):
         fd.settings['solution_type'] = mesh['solution_type']
     for kind, (cid, rows) in (mesh.get('constraints') or {}).items():
         data = np.array([[fx(v) for v in r] for r in rows], dtype=float)
         fd.constraints.update({kind: FEMAttribute(kind, np.array(cid, dtype=np.int64), data)})
+    # modifications of the live object after construction (the arrays are edited in place)
+    for e in mesh.get('inplace') or []:
+        if e[0] == 'node':
+            fd.nodes.data[e[1], e[2]] = fx(e[3])
+        elif e[0] == 'temp':
+            fd.nodal_data['INITIAL_TEMPERATURE'].data[e[1], 0] = fx(e[3])
+        elif e[0] == 'conn':
+            conn = fd.elements[e[4]].data
+            conn[e[1], e[2]] = e[3]
+        elif e[0] == 'constraint':
+            fd.constraints[e[4]].data[e[1], e[2]] = fx(e[3])
     return fd
 
 
@@ -81,6 +100,15 @@ def dump(fd):
         out['sections'] = []
     out['initial'] = [[k[len('INITIAL_'):], [int(i) for i in v.ids], hexrows(v.data)]
                       for k, v in fd.nodal_data.items() if k.startswith('INITIAL_')]
+    out['materials'] = []
+    out['elemental'] = []
+    for prop in ('Young_modulus', 'Poisson_ratio'):
+        if prop in fd.materials:
+            a = fd.materials[prop]
+            out['materials'].append([prop, [str(i) for i in a.ids], hexrows(a.data)])
+        if prop in fd.elemental_data:
+            out['elemental'].append([prop, [[t, [int(i) for i in a.ids], hexrows(a.data)]
+                                            for t, a in fd.elemental_data[prop].items()]])
     out['solution_type'] = str(fd.settings.get('solution_type'))
     out['constraints'] = {k: [[int(i) for i in v.ids], hexrows(v.data)]
                           for k, v in fd.constraints.items()}
@@ -131,7 +159,10 @@ def run(job):
             names = [str(d / 'mesh.msh')]
             if job.get('read_cnt') and (d / 'mesh.cnt').exists():
                 names.append(str(d / 'mesh.cnt'))
-            r = FEMData.read_files('fistr', names)
+            if job.get('via_directory'):
+                r = FEMData.read_directory('fistr', d, read_npy=False, save=False)
+            else:
+                r = FEMData.read_files('fistr', names)
             res['read'] = dump(r)
         except Exception as e:  # noqa
             res['read_error'] = repr(e)[:300]
